@@ -372,44 +372,90 @@ def _last_def(fn, blocks, i, si, local):
     return None
 
 
-def path_const(fn, blocks, i, si, op, fields=(), depth=0):
-    """constant ('true' / 'false' / integer text / enum variant name) the operand `op`, used in blocks[i] before statement si (None = at the
-    terminator), evaluates to ON THIS PATH — or None when it is not a constant assembled on the path itself"""
-    if depth > 12 or not isinstance(op, dict):
+def _const_struct_field(facts, defpath, fields):
+    """value text of field path `fields` of the constant `defpath`, read from the constant's initialiser MIR (struct literal of constants)"""
+    c = next((c for c in facts.j.get('consts', []) if c.get('path') == defpath), None)
+    if c is None or 'mir' not in c or not fields:
+        return None
+    locs = {}
+    for b in c['mir']['blocks']:
+        for s_ in b['s']:
+            if s_['k'] == 'assign' and 'proj' not in s_['p']:
+                locs[s_['p']['l']] = s_['rv']
+    rv = locs.get(0)
+    for depth, f in enumerate(fields):
+        if rv is None or rv.get('k') != 'agg':
+            return None
+        names = rv.get('fields') or [str(i) for i in range(len(rv.get('ops', [])))]
+        if f not in names:
+            return None
+        o = rv['ops'][names.index(f)]
+        if o.get('k') == 'const':
+            return o.get('val') if depth == len(fields) - 1 else None
+        if o.get('k') in ('copy', 'move') and 'proj' not in o['p']:
+            rv = locs.get(o['p']['l'])
+            if rv is not None and rv.get('k') == 'use' and rv['op'].get('k') == 'const' and depth == len(fields) - 1:
+                return rv['op'].get('val')
+        else:
+            return None
+    return None
+
+
+def path_resolve(fn, blocks, i, si, op, fields=(), depth=0):
+    """where the operand `op`, used in blocks[i] before statement si (None = at the terminator), comes from ON THIS PATH, followed back through
+    copies, moves, reborrows, tuple / struct literals and constants:  ('const', text)  |  ('op', operand json, block index in path, stmt index)
+    (the last operand that could be followed — a call result, an arithmetic rvalue, a parameter)  |  None"""
+    if depth > 16 or not isinstance(op, dict):
         return None
     if op.get('k') == 'const':
-        return op.get('val') if not fields else None
+        if not fields:
+            return ('const', op.get('val'))
+        v = _const_struct_field(fn.facts, op.get('rdef') or op.get('def'), fields) if (op.get('def') or op.get('rdef')) else None
+        return ('const', v) if v is not None else None
     if op.get('k') not in ('copy', 'move'):
         return None
     p = op['p']
     fl = tuple(e['f'] for e in p.get('proj', []) if isinstance(e, dict) and 'f' in e) + tuple(fields)
     if any(isinstance(e, dict) and 'f' not in e and e.get('k') not in (None, 'deref') for e in p.get('proj', [])):
         return None
+    here = ('op', {'k': op['k'], 'p': p} if not fields else None, i, si)
     d = _last_def(fn, blocks, i, si, p['l'])
     if d is None or d[0] != 'assign':
-        return None
+        return here if not fields and 'proj' not in p else (('op', op, i, si) if not fields else None)
     _, s, k, j = d
     if 'proj' in s['p']:
         return None
     rv = s['rv']
     if rv['k'] == 'use':
-        return path_const(fn, blocks, k, j, rv['op'], fl, depth + 1)
+        return path_resolve(fn, blocks, k, j, rv['op'], fl, depth + 1)
+    if rv['k'] in ('ref', 'rawptr'):
+        return path_resolve(fn, blocks, k, j, {'k': 'copy', 'p': rv['p']}, fl, depth + 1)
     if rv['k'] == 'agg':
         if not fl:
-            return rv.get('variant') if rv.get('enum') else None
+            return ('const', rv.get('variant')) if rv.get('enum') else ('op', op, i, si)
         f0 = fl[0]
         ops = rv.get('ops', [])
         if rv.get('ak') == 'tuple' and f0.isdigit() and int(f0) < len(ops):
-            return path_const(fn, blocks, k, j, ops[int(f0)], fl[1:], depth + 1)
+            return path_resolve(fn, blocks, k, j, ops[int(f0)], fl[1:], depth + 1)
         if rv.get('ak') == 'adt' and f0 in (rv.get('fields') or []):
-            return path_const(fn, blocks, k, j, ops[rv['fields'].index(f0)], fl[1:], depth + 1)
+            return path_resolve(fn, blocks, k, j, ops[rv['fields'].index(f0)], fl[1:], depth + 1)
         return None
     if rv['k'] == 'discr' and not fl:
-        return path_const(fn, blocks, k, j, {'k': 'copy', 'p': rv['p']}, (), depth + 1)
+        return path_resolve(fn, blocks, k, j, {'k': 'copy', 'p': rv['p']}, (), depth + 1)
     if rv['k'] == 'unop' and rv.get('op') == 'Not' and not fl:
-        v = path_const(fn, blocks, k, j, rv.get('a') or rv.get('operand') or rv.get('o'), (), depth + 1)
-        return {'true': 'false', 'false': 'true'}.get(v)
-    return None
+        r = path_resolve(fn, blocks, k, j, rv.get('a') or rv.get('operand') or rv.get('o'), (), depth + 1)
+        if r and r[0] == 'const':
+            return ('const', {'true': 'false', 'false': 'true'}.get(r[1]))
+        return None
+    if fl:
+        return None
+    return ('op', op, i, si)
+
+
+def path_const(fn, blocks, i, si, op, fields=(), depth=0):
+    """constant ('true' / 'false' / integer text / enum variant name) the operand evaluates to ON THIS PATH, or None"""
+    r = path_resolve(fn, blocks, i, si, op, fields, depth)
+    return r[1] if r and r[0] == 'const' else None
 
 
 def feasible_paths(fn, max_paths=2048):
